@@ -999,6 +999,7 @@ func (dsc *dataStoreCommand) restore(keyName, serializedData string, ttl int64, 
 	newSk.flags = flags
 	newSk.expiresAt = expiration
 	newSk.payload = payload
+	dsc.ds.unblockForNewListUnlocked(keyName, newSk)
 
 	output.data = rstrOK
 	return
@@ -3278,6 +3279,7 @@ func (dsc *dataStoreCommand) sort(sourceKeyName, byPattern, destKeyName string, 
 			str, _ := element.toString()
 			dsc.rpushUnlocked(destKeyName, list, []byte(str))
 		}
+		dsc.ds.unblockListUnlocked(destKeyName, list.count)
 
 		output.data = respInt(list.count)
 	} else {
